@@ -246,6 +246,10 @@ package olareg
 //@   ensures [locks-restored] forall m: Ref :: (heldAt(m) <==> old(heldAt(m)))
 //@   ensures [timers] forall t: *time.Timer :: allocated(t) && t != old(s.referrerCache.timer) ==> (t.armed <==> old(t.armed))
 
+//@ -- the repository grammar has no empty, "." or ".." elements and no leading separator (every element starts and ends
+//@ -- with [a-z0-9]): a name that matches is a relative path that cannot climb (C16)
+//@ axiom repo-grammar-is-safe: forall s: string :: re_rePath(s) ==> safeRel(s)
+
 //@ pred methodMutates(m) := m == "PUT" || m == "POST" || m == "PATCH" || m == "DELETE"
 
 //@ func (s *Server) ServeHTTP(resp http.ResponseWriter, req *http.Request)
